@@ -274,6 +274,10 @@ def oracle_c13(h, out):
                 bad.append(("close: step %d (a refresh) sent a close notification" if cc[6]
                             else "identity: step %d (a refresh) sent a notification") % i)
             continue
+        if st["dropped"] and st.get("unlisted"):
+            # a result for a group that is not on the notifier's list is not an evaluation the property speaks of (none is
+            # requested for such a group): what the code does with it is left to the differential comparison
+            continue
         cl, gi = st["key"]
         for (m, c, g, status, eid, start, good) in calls:
             if c != "c%d" % cl or g != "g%d" % gi:
@@ -319,9 +323,10 @@ def oracle_c14(h, out):
             if st["kind"] != "r":
                 bad.append("threshold: step %d (a refresh) sent a notification" % i)
                 continue
+            if st["dropped"] and st.get("unlisted"):
+                continue    # not an evaluation the property speaks of (see oracle_c13); left to the differential comparison
             if st["dropped"]:
-                bad.append("threshold: step %d %s was notified" % (i, "a result for a group that is not on the list"
-                                                                   if st.get("unlisted") else "NOTFOUND result"))
+                bad.append("threshold: step %d NOTFOUND result was notified" % i)
                 continue
             if status != st["status"] or st["status"] < thr_of(mod):
                 bad.append("threshold: step %d module m%d notified for status %d below threshold %s" % (i, m, st["status"], mod["thr"]))
